@@ -684,6 +684,19 @@ bool cmi_process_remove_holdable(struct cmb_process *pp,
     return found;
 }
 
+/* The wakeup calls that other parts of the library send to a process */
+extern cmb_event_func *const cmi_event_wakeup_action;
+extern cmb_event_func *const cmi_resource_preempt_action;
+extern cmb_event_func *const cmi_resourceguard_wakeup_action;
+extern cmb_event_func *const cmi_condition_wakeup_action;
+extern uint64_t cmi_event_cancel_actions(cmb_event_func *const *actions,
+                                         uint64_t n,
+                                         const void *subject);
+
+/* And those sent from here, defined below */
+static void wakeup_event_interrupt(void *vp, void *arg);
+static void resume_event(void *vp, void *arg);
+
 void cmi_process_cancel_awaiteds(struct cmb_process *pp)
 {
     cmb_assert_debug(pp != NULL);
@@ -732,8 +745,25 @@ void cmi_process_cancel_awaiteds(struct cmb_process *pp)
         cmi_mempool_free(&cmi_process_awaitabletags, pa);
     }
 
-    /* Make sure any previously scheduled wakeup event does not happen */
-    cmb_event_pattern_cancel(CMB_ANY_ACTION, pp, CMB_ANY_OBJECT);
+    /*
+     * Make sure any previously scheduled wakeup event does not happen. The
+     * library's own calls to this process only: an event that the application
+     * has scheduled with the process as its subject is not ours to cancel.
+     */
+    cmb_event_func *const wakeups[] = {
+        start_event,
+        wakeup_event_time,
+        wakeup_event_process,
+        wakeup_event_interrupt,
+        resume_event,
+        cmi_event_wakeup_action,
+        cmi_resource_preempt_action,
+        cmi_resourceguard_wakeup_action,
+        cmi_condition_wakeup_action
+    };
+    (void)cmi_event_cancel_actions(wakeups,
+                                   sizeof(wakeups) / sizeof(wakeups[0]),
+                                   pp);
 }
 
 /*
